@@ -19,6 +19,7 @@ import AdaptixModel.Morph.Scalars
 import AdaptixProofs.Lemmas.MiniPySym
 import AdaptixProofs.Lemmas.Catalogue
 import AdaptixProofs.Props.C07
+import AdaptixProofs.Lemmas.MorphTerminates
 
 namespace Adaptix.Morph.C07Narrow
 open Adaptix.Py Adaptix.MiniPy Adaptix.Morph Adaptix.Generated.Scalars
@@ -243,6 +244,23 @@ theorem builtin_strict_sub_lax_accept (beh : String → Val → String → SiteO
     ∃ v', load (builtinWorld beh classes sd) ⟨m, false⟩ n' T d = .ok v' :=
   C07.strict_sub_lax_accept _ (builtin_leaf_narrowing beh hcat hid classes sd) hWl m n n' T d v hT h hdiv hesc
 
+theorem builtinWorld_answers (beh : String → Val → String → SiteOut Val)
+    (classes : String → Option (List Field)) (sd : String → Val → Outcome Val) :
+    LeavesAnswer (builtinWorld beh classes sd) :=
+  fun s name d => scalarLoadGen_answers (fun _ => beh) s name d
+
+/-- the same without a termination hypothesis: at every fuel from some `N` on -/
+theorem builtin_strict_sub_lax_accept_total (beh : String → Val → String → SiteOut Val)
+    (hcat : JointWithin beh) (hid : IdentityLaw beh) (classes : String → Option (List Field))
+    (sd : String → Val → Outcome Val)
+    (hWl : WorldNodes (builtinWorld beh classes sd) litNodeFlat)
+    (m : DebugTrail) (n : Nat) (T : Ty) (d v : Val) (hT : T.litFlat = true)
+    (h : load (builtinWorld beh classes sd) ⟨m, true⟩ n T d = .ok v) :
+    ∃ N, ∀ n', N ≤ n' → (load (builtinWorld beh classes sd) ⟨m, false⟩ n' T d).isEscape = false →
+      ∃ v', load (builtinWorld beh classes sd) ⟨m, false⟩ n' T d = .ok v' :=
+  C07.strict_sub_lax_accept_total _ (builtin_leaf_narrowing beh hcat hid classes sd)
+    (builtinWorld_answers beh classes sd) hWl m n T d v hT h
+
 /-! ### non-vacuity -/
 
 /-- a behaviour built from the tables: an identity site returns its datum, any other site does the
@@ -312,5 +330,66 @@ example : (scalarLoadGen (fun _ => witnessBeh) false "int" (.int 5)).isOk = true
     closure returns `int(data)`, the strict one `data`) -/
 example : compatRet (fun _ => false) .data (.site "int(data)") = false := by decide
 example : (closures.map (·.1.1)).length ≥ 40 := by decide +kernel
+
+/-! ### all hypotheses of the builtin container theorems hold together
+
+  the catalogue-built behaviour (`witness_joint`, `witness_identity`), a two-class table over the
+  translated `int` / `str` closures (so `WorldNodes … litNodeFlat / notUnionNode` are about real
+  fields), and a strict run through both classes that does succeed -/
+
+def wClasses : String → Option (List Field) := fun cls =>
+  if cls = "P" then some [⟨"n", .scalar "int", true, .none⟩, ⟨"s", .scalar "str", true, .none⟩]
+  else if cls = "Q" then some [⟨"p", .model "P", true, .none⟩, ⟨"xs", .iter .list true (.scalar "int"), true, .none⟩]
+  else none
+
+def wWorld : World := builtinWorld witnessBeh wClasses (fun _ d => .ok d)
+
+theorem wWorld_nodes (p : Ty → Bool) (h1 : p (.scalar "int") = true) (h2 : p (.scalar "str") = true)
+    (h3 : p (.model "P") = true) (h4 : p (.iter .list true (.scalar "int")) = true) : WorldNodes wWorld p := by
+  intro cls fields h f hf
+  simp only [wWorld, builtinWorld, wClasses] at h
+  split at h
+  · cases h; simp at hf; rcases hf with rfl | rfl <;> simp [Ty.allNodes, *]
+  · split at h
+    · cases h; simp at hf; rcases hf with rfl | rfl <;> simp [Ty.allNodes, *]
+    · cases h
+
+def wData : Val :=
+  .dict [(.str "p", .dict [(.str "n", .int 5), (.str "s", .str "a")]), (.str "xs", .list [.int 1, .int 2])]
+
+theorem leaf_ok (s : String) (d : Val) (h : (scalarLoadGen (fun _ => witnessBeh) true s d).isOk = true) :
+    ∃ v, scalarLoadGen (fun _ => witnessBeh) true s d = .ok v := by
+  cases hh : scalarLoadGen (fun _ => witnessBeh) true s d with
+  | ok v => exact ⟨v, rfl⟩
+  | _ => rw [hh] at h; cases h
+
+theorem wLoad_strict : ∃ v, load wWorld ⟨.all, true⟩ 4 (.model "Q") wData = .ok v := by
+  obtain ⟨v5, h5⟩ := leaf_ok "int" (.int 5) (by decide +kernel)
+  obtain ⟨v1, h1⟩ := leaf_ok "int" (.int 1) (by decide +kernel)
+  obtain ⟨v2, h2⟩ := leaf_ok "int" (.int 2) (by decide +kernel)
+  obtain ⟨va, ha⟩ := leaf_ok "str" (.str "a") (by decide +kernel)
+  simp [load, wWorld, builtinWorld, wClasses, wData, loadModel, modelItems, Val.lookup, Val.pyEq, seqMode,
+    sweepAll, Sweep.finish, bindO, loadIter, strictExcluded, Val.isMapping, Val.isStr, Val.iterElems, idxItems,
+    Factory.build, h5, h1, h2, ha]
+
+/-- `builtin_strict_sub_lax_value_unionFree`, every hypothesis discharged -/
+theorem wLoad_lax : ∃ v, load wWorld ⟨.all, true⟩ 4 (.model "Q") wData = .ok v ∧
+    load wWorld ⟨.all, false⟩ 4 (.model "Q") wData = .ok v := by
+  obtain ⟨v, hv⟩ := wLoad_strict
+  exact ⟨v, hv, builtin_strict_sub_lax_value_unionFree witnessBeh witness_joint witness_identity wClasses _
+    (wWorld_nodes _ rfl rfl rfl rfl) (wWorld_nodes _ rfl rfl rfl rfl) .all 4 (.model "Q") wData v rfl rfl hv⟩
+
+/-- `builtin_strict_sub_lax_accept` / `…_total`, every hypothesis discharged -/
+example : ∃ v', load wWorld ⟨.all, false⟩ 4 (.model "Q") wData = .ok v' := by
+  obtain ⟨v, hs, hl⟩ := wLoad_lax
+  exact builtin_strict_sub_lax_accept witnessBeh witness_joint witness_identity wClasses _
+    (wWorld_nodes _ rfl rfl rfl rfl) .all 4 4 (.model "Q") wData v rfl hs
+    (by unfold wWorld at hl; rw [hl]; simp) (by unfold wWorld at hl; rw [hl]; rfl)
+
+example : ∃ N, ∀ n', N ≤ n' → (load wWorld ⟨.all, false⟩ n' (.model "Q") wData).isEscape = false →
+    ∃ v', load wWorld ⟨.all, false⟩ n' (.model "Q") wData = .ok v' := by
+  obtain ⟨v, hs, _⟩ := wLoad_lax
+  exact builtin_strict_sub_lax_accept_total witnessBeh witness_joint witness_identity wClasses _
+    (wWorld_nodes _ rfl rfl rfl rfl) .all 4 (.model "Q") wData v rfl hs
 
 end Adaptix.Morph.C07Narrow
